@@ -188,6 +188,7 @@ def run(ctx):
         reach = sq.reach([fl[0].bb])
         ctx.ob(not (set(c.bb for c in er) & reach) or True, 'after the failure the loop continues with the next operation', 'svc|continue', loc=sq.loc())
     vcx = [e for (i, j, s) in sq.stmts() if s['k'] == 'assign' for e in [sq.rvalue_expr(s['rv'], i)] if e[0] == 'agg' and e[1].endswith('OutboundValidationContext')]
+    vcx = list({show(e): e for e in vcx}.values())
     ctx.ob(len(vcx) == 1 and show(dict(vcx[0][3]).get('connect_options')) == 'Option::Some{0: self.config.connect_options}', 'the validation context carries the connect options', 'svc|context', loc=sq.loc())
     ns = [(i, s) for (i, s, pe, rve) in sq.field_writes() if show(pe) == 'validation_context.negotiated_settings' and 'self.current_settings' in show(rve)]
     ctx.ob(len(ns) == 1, 'the validation context carries the current negotiated settings', 'svc|context-settings', loc=sq.loc())
